@@ -54,7 +54,9 @@ func (o *prodObs) OnSchemaUpdate(r string, _, _ *arrow.Schema) {
 func (o *prodObs) OnDictionaryReset(r, f string, _ arrow.DataType, _, _ uint64) {
 	o.events = append(o.events, streamEvent{"reset", r, f})
 }
-func (o *prodObs) OnMetadataUpdate(r, k string) { o.events = append(o.events, streamEvent{"metadata", r, k}) }
+func (o *prodObs) OnMetadataUpdate(r, k string) {
+	o.events = append(o.events, streamEvent{"metadata", r, k})
+}
 func (o *prodObs) OnRecord(rec arrow.Record, pt record_message.PayloadType) {
 	o.recs = append(o.recs, &obsRecord{PType: pt, Key: streamKey(pt, rec.Schema()), Table: tableOf(rec), Schema: rec.Schema()})
 }
